@@ -59,6 +59,10 @@
     — Proofs/OptsGood, CrossLoad —, the second loop keeps it, and the walks print about a column only from a record of
     that name with an action).  (That an *index* equal on both sides gets no statement is part of `Abs.Idx.emit`.)
 
+  * `equal_primary_key_untouched` — likewise an unchanged primary key declared at table level gets no ADD / DROP
+    PRIMARY KEY, whatever dropped-column list the index walk is called with (reader fidelity on table-level keys,
+    C05.primary_key_table_level).
+
   Missing for `Statement_partial`: the converse attribute lemma (a MODIFY carrying the new definition for exactly the
   columns whose type or options differ), the primary key, and the lift from one table's lists to the whole schema.  Those parts are covered by the correspondence run and
   by the executable predicate `Spec.c01` evaluated on the implementation's printed migration on every check.
@@ -170,6 +174,32 @@ theorem equal_column_untouched (g : Globals) (hg : g.dialect = .mysql) (rc : Boo
     ∃ td ∈ d.tables, td.name = t ∧ td.action = .none ∧
       ∀ up, ∀ s ∈ (Table.walkCols g t up [] td.cols).1, stmtCol s ≠ some cN.name :=
   Sqlize.equal_column_untouched g hg rc old new dbO dbN ho hn hpo hpn heo hen d hd t tbO tbN hfo hfn cN cO hcN hcO hname htyp hopts
+
+/-- an unchanged table-level primary key gets no ADD / DROP PRIMARY KEY -/
+theorem equal_primary_key_untouched (g : Globals) (hg : g.dialect = .mysql) (rc : Bool)
+    (old new : List Stmt) (dbO dbN : DB) (ho : old.all Stmt.elemSafe = true) (hn : new.all Stmt.elemSafe = true)
+    (hto : old.all Stmt.tablePk = true) (htn : new.all Stmt.tablePk = true)
+    (heo : execAll rc [] old = some dbO) (hen : execAll rc [] new = some dbN)
+    (d : Migration) (hd : loadAndDiff g old new = .ok d)
+    (t : String) (tbO tbN : TableSpec) (hfo : dbO.find t = some tbO) (hfn : dbN.find t = some tbN)
+    (hpk : tbO.pk = tbN.pk) :
+    ∃ td ∈ d.tables, td.name = t ∧ td.action = .none ∧
+      ∀ dc, ∃ ss, Table.walkIdx g t true dc td.idxs = .ok ss ∧ ∀ s ∈ ss, pkStmt s = false :=
+  equal_pk_untouched g hg rc old new dbO dbN ho hn hto htn heo hen d hd t tbO tbN hfo hfn hpk
+
+-- non-vacuity: `exOldE` / `exNewE` below differ in the key (old: none, new: (a)) and an ADD PRIMARY KEY is printed;
+-- with the key on both sides nothing is
+def exOldK : List Stmt := [.createTable "t" 0 [{ name := "a", typ := "int(11)" }, { name := "b", typ := "int(11)" }] ["a"]]
+def exNewK : List Stmt :=
+  [.createTable "t" 0 [{ name := "a", typ := "int(11)" }] [], .addColumn "t" { name := "c", typ := "text" } .none,
+   .addPrimaryKey "t" ["a"], .createIndex "t" "i" ["c"] false ""]
+example : exOldK.all Stmt.elemSafe = true ∧ exNewK.all Stmt.elemSafe = true ∧ exOldK.all Stmt.tablePk = true ∧
+    exNewK.all Stmt.tablePk = true := by decide
+example : (execAll true [] exOldK).map (fun db => db.map (·.pk)) = some [["a"]] ∧
+    (execAll true [] exNewK).map (fun db => db.map (·.pk)) = some [["a"]] := by decide
+example : ∃ d, loadAndDiff {} exOldK exNewK = .ok d ∧
+    (d.tables.map (fun t => (Table.walkIdx {} t.name true ["b"] t.idxs).toOption)) =
+      [some [.createIndex "t" "i" ["c"] false ""]] := ⟨_, by rfl, by decide⟩
 
 -- non-vacuity of `equal_column_untouched`: column `a` has its options in another order on the two sides and is left
 -- alone, while `b` (retyped) is modified and `c` is added
